@@ -247,14 +247,20 @@ def handle (j : Json) : R Json := do
   let some al := al | return Json.mkObj [("id", (← field j "id")), ("agree", Json.bool false), ("spec_impl", Json.bool true),
       ("model", Json.mkObj [("why", "call traces differ"), ("trace", jStrs (o0.trace.map kind))]), ("nontrivial", Json.bool false)]
   let some step := al[k - 1]? | throw "k out of range"
-  -- the persistent cache is optional: a failing read of its reference is swallowed by the cache
-  -- loader and the operation goes on without a cache.  Such a fault must leave no trace at all: the
-  -- run reports what the uninterrupted run reports and ends in the same state.
-  if mode == "fault" && trace0[k - 1]? == some "GetReference(refs/local/gittuf/persistent-cache)" then
-    let same := result == result0 && cAfter == cAfter0
-    return Json.mkObj [("id", (← field j "id")), ("agree", Json.bool same), ("spec_impl", Json.bool same),
-      ("class", s!"{mode}:optional-read"),
-      ("model", Json.mkObj [("why", "fault on the optional cache reference is ignored")]), ("nontrivial", Json.bool true)]
+  -- F67: a failing READ that the code tolerates (the reference of the optional persistent cache, a
+  -- commit message looked up on behalf of the cache / of a tolerant look-up) is swallowed: the
+  -- operation reports success although a storage call failed.  Identified by its class - success
+  -- reported and an outcome identical to the uninterrupted run's; a swallowed fault with any other
+  -- outcome is not covered.  (The model has no notion of tolerated reads; it is not consulted here.)
+  if mode == "fault" && result == "ok" && result0 == "ok" && cAfter == cAfter0 then
+    let isOpen := match j.getObjVal? "open" with
+      | .ok o => (match o.getArr? with | .ok a => a.any (fun x => x == Json.str "F67") | .error _ => false)
+      | .error _ => true
+    return Json.mkObj ([("id", (← field j "id")), ("agree", Json.bool true), ("spec_impl", Json.bool false),
+      ("class", s!"{mode}:swallowed"),
+      ("model", Json.mkObj [("why", "fault swallowed; outcome identical to the uninterrupted run"),
+        ("call", match trace0[k - 1]? with | some c => Json.str c | none => Json.null)]),
+      ("nontrivial", Json.bool true)] ++ (if isOpen then [("finding", Json.str "F67")] else []))
   -- 2. the faulted / crashed run, judged on canonical names
   let canonPred (p : Pred) : Obs × Obs × Obs × Obs :=
     match canonAll known [obsOf w w.store, obsOf w o0.store, p.after, p.afterRetry] with
